@@ -24,7 +24,9 @@ func (vc *VC) execInstr(ins ssa.Instruction) {
 	R := vc.R[vc.cur]
 	switch x := ins.(type) {
 	case *ssa.DebugRef:
-		vc.assertsAfter(x)
+		if len(vc.inl) == 0 {
+			vc.assertsAfter(x)
+		}
 	case *ssa.Alloc:
 		vc.localAlloc = !x.Heap
 		vc.vals[x] = vc.alloc(x.Type().(*types.Pointer).Elem(), x.Type(), x.Comment)
@@ -122,7 +124,7 @@ func (vc *VC) execInstr(ins ssa.Instruction) {
 		}
 	case *ssa.Return:
 		var rs []SVal
-		sig := vc.fn.Signature.Results()
+		sig := vc.curFn().Signature.Results()
 		for i, r := range x.Results {
 			rs = append(rs, vc.coerce(vc.val(r), sig.At(i).Type()))
 		}
